@@ -49,7 +49,7 @@ type KSpec struct {
 }
 
 type USpec struct {
-	Mode    string `json:"mode"` // valid wrongparent badseal unauthval oldtime wrongtype badsig notrusted future
+	Mode    string `json:"mode"` // valid wrongparent badseal unauthval oldtime wrongtype badsig notrusted future baddiff driftedge driftok recent past badheader
 	K       uint64 `json:"k"`    // tm: height step above the trusted height
 	DtS     uint64 `json:"dt_s"`
 	NewAcct int    `json:"new_acct"`
@@ -67,6 +67,11 @@ type Step struct {
 	Chains []int  `json:"chains,omitempty"`
 	NAddr  int    `json:"naddr"`
 	Dt     uint64 `json:"dt"`
+	// tickexp: move the block time to the expiry boundary of a stored consensus state of client Name:
+	// Which = "latest" (the one Status looks at) or "first" (the one the pruning step looks at); Off = -1, 0, +1 units
+	// (ns for Tendermint, s for BSC / ETH) relative to timestamp + trusting period
+	Which string `json:"which,omitempty"`
+	Off   int64  `json:"off,omitempty"`
 }
 
 type Spec struct {
@@ -188,6 +193,7 @@ func (w *World) resolveClient(name string, c *CSpec, k *KSpec) (exported.ClientS
 			}
 		}
 		hd := mkETHHeader(nil, h, unixS(now)-c.AgeS, w.evmfx.root, byte(h))
+		hd.Height = clienttypes.NewHeight(c.Rev, h) // the revision number is not part of the block hash
 		if c.Bad == "bloom" {
 			hd.Bloom = make([]byte, 257)
 		}
@@ -252,6 +258,9 @@ func (w *World) resolveHeader(name string, u *USpec, signer *acct) (exported.Hea
 	mode := u.Mode
 	mkTSS := func(i int) (exported.Header, *JUHdr) {
 		a := w.accts[i%nAccts].addr.String()
+		if mode == "badheader" { // Header.ValidateBasic: not an address
+			a = "teleport1notanaddress"
+		}
 		h := &tsstypes.Header{TssAddress: a, Pubkey: []byte{byte(i), 7}, PartPubkeys: [][]byte{{byte(i), 8}, {byte(i), 9}}, Threshold: 2}
 		return h, &JUHdr{T: "tss", Addr: hx([]byte(a)), Rest: hx(tssRest(h.Pubkey, h.PartPubkeys, h.Threshold))}
 	}
@@ -291,6 +300,14 @@ func (w *World) resolveHeader(name string, u *USpec, signer *acct) (exported.Hea
 		if mode == "notrusted" {
 			trusted = clienttypes.NewHeight(trusted.RevisionNumber, trusted.RevisionHeight+5)
 		}
+		if mode == "past" { // a height skipped earlier: trusted = the earliest stored consensus state, header one block above it
+			for _, e := range w.dumpStore(name) {
+				if e.K == "cons" && e.H[0] == trusted.RevisionNumber && e.H[1] < trusted.RevisionHeight {
+					trusted = clienttypes.NewHeight(e.H[0], e.H[1])
+				}
+			}
+			step = 1
+		}
 		ts := now.Add(-time.Duration(u.DtS) * time.Second)
 		hv := true
 		set := 0
@@ -310,7 +327,17 @@ func (w *World) resolveHeader(name string, u *USpec, signer *acct) (exported.Hea
 		if mode == "future" {
 			ts = now.Add(time.Hour)
 		}
+		// light.Verify: the header time must be BEFORE block time + max clock drift
+		if mode == "driftedge" {
+			ts = now.Add(c.MaxClockDrift)
+		}
+		if mode == "driftok" {
+			ts = now.Add(c.MaxClockDrift - time.Nanosecond)
+		}
 		h, j := mkTM(c.ChainId, trusted, trusted.RevisionHeight+step, ts, set, hv)
+		if mode == "badheader" { // Header.ValidateBasic: validator set cannot be nil
+			h.(*tmclient.Header).ValidatorSet = nil
+		}
 		return h, j, signer
 	case *bsctypes.ClientState:
 		if mode == "wrongtype" {
@@ -345,6 +372,17 @@ func (w *World) resolveHeader(name string, u *USpec, signer *acct) (exported.Hea
 			}
 		} else {
 			coinbase = evmAddrs[0]
+		}
+		if mode == "recent" && len(sorted) > 0 { // a validator inside the window of recent signers (if there is one)
+			for _, a := range sorted {
+				if recently(a) && keyOf(a) != nil {
+					coinbase, diff = a, 1
+					if a == sorted[(parent.Height.RevisionHeight+1)%uint64(len(sorted))] {
+						diff = 2
+					}
+					break
+				}
+			}
 		}
 		sealer := keyOf(coinbase)
 		if sealer == nil {
@@ -391,6 +429,10 @@ func (w *World) resolveHeader(name string, u *USpec, signer *acct) (exported.Hea
 			hv = false
 		}
 		hd := mkBSCHeader(parentHash, n, parent.Time+3, w.evmfx.root, coinbase, sealer, diff, vals, 0)
+		if mode == "badheader" { // Header.ValidateBasic: bloom longer than 256 bytes
+			hd.Bloom = make([]byte, 257)
+			hv = false
+		}
 		return &hd, &JUHdr{T: "evm", ET: "bsc", Hdr: absBSCHdr(w, hd), Hv: hv}, signer
 	case *ethtypes.ClientState:
 		if mode == "wrongtype" {
@@ -415,7 +457,12 @@ func (w *World) resolveHeader(name string, u *USpec, signer *acct) (exported.Hea
 			tm = unixS(now) + 3600
 		}
 		hd := mkETHHeader(parentHash, parent.Height.RevisionHeight+1, tm, w.evmfx.root, byte(parent.Height.RevisionHeight+1))
+		hd.Height = clienttypes.NewHeight(parent.Height.RevisionNumber, parent.Height.RevisionHeight+1) // children stay in their parent's revision
 		hv := tm <= unixS(now.Add(15*time.Second))
+		if mode == "badheader" { // Header.ValidateBasic: bloom longer than 256 bytes
+			hd.Bloom = make([]byte, 257)
+			hv = false
+		}
 		return &hd, &JUHdr{T: "evm", ET: "eth", Hdr: absETHHdr(w, hd), Hv: hv}, signer
 	}
 	h, j := mkTSS(u.NewAcct)
@@ -423,6 +470,54 @@ func (w *World) resolveHeader(name string, u *USpec, signer *acct) (exported.Hea
 }
 
 func (w *World) name(i int) string { return w.names[i%len(w.names)] }
+
+// toExpiry: nanoseconds from now to (timestamp + trusting period + off units) of the latest / the earliest consensus
+// state of the stored client (1 when there is no such state or the boundary is not ahead)
+func (w *World) toExpiry(name string, which string, off int64) uint64 {
+	cur := w.stored(name)
+	if cur == nil {
+		return 1
+	}
+	k := w.ch.App.XIBCKeeper.ClientKeeper
+	h := cur.GetLatestHeight()
+	if which == "first" {
+		var first *JH
+		for _, e := range w.dumpStore(name) {
+			if e.K == "cons" && (first == nil || e.H[0] < first[0] || (e.H[0] == first[0] && e.H[1] < first[1])) {
+				hh := *e.H
+				first = &hh
+			}
+		}
+		if first == nil {
+			return 1
+		}
+		h = clienttypes.NewHeight(first[0], first[1])
+	}
+	cons, found := k.GetClientConsensusState(w.ctx(), name, h)
+	if !found {
+		return 1
+	}
+	now := w.now().UnixNano()
+	var target int64
+	switch c := cur.(type) {
+	case *tmclient.ClientState:
+		tc, ok := cons.(*tmclient.ConsensusState)
+		if !ok {
+			return 1
+		}
+		target = tc.Timestamp.UnixNano() + int64(c.TrustingPeriod) + off
+	case *bsctypes.ClientState:
+		target = (int64(cons.GetTimestamp()) + int64(c.TrustingPeriod) + off) * 1e9
+	case *ethtypes.ClientState:
+		target = (int64(cons.GetTimestamp()) + int64(c.TrustingPeriod) + off) * 1e9
+	default:
+		return 1
+	}
+	if target <= now {
+		return 1
+	}
+	return uint64(target - now)
+}
 
 func (w *World) runStep(s Step) StepRes {
 	switch s.Op {
@@ -449,7 +544,12 @@ func (w *World) runStep(s Step) StepRes {
 			class, stage, errs = 2, "validate-basic", pv // ValidateBasic itself panicked
 		}
 		if class == 0 {
-			w.installed[name] = jh(cs.GetLatestHeight())
+			// the heights installed by proposals: a create / toggle starts afresh, an upgrade adds its height
+			if s.Op == "upgrade" {
+				w.installed[name] = append(w.installed[name], jh(cs.GetLatestHeight()))
+			} else {
+				w.installed[name] = []JH{jh(cs.GetLatestHeight())}
+			}
 			if t, ok := cs.(*tsstypes.ClientState); ok {
 				w.tssProof[name] = hx([]byte(t.TssAddress))
 			}
@@ -491,6 +591,10 @@ func (w *World) runStep(s Step) StepRes {
 			}
 		}
 		return StepRes{Op: op, Obs: w.observe(class, stage, errs)}
+	case "tickexp":
+		dt := w.toExpiry(w.name(s.Name), s.Which, s.Off)
+		w.tick(dt)
+		return StepRes{Op: JOp{K: "tick", Dt: dt}, Obs: w.observe(0, "", "")}
 	default: // tick
 		dt := s.Dt
 		if dt == 0 {
